@@ -5,6 +5,7 @@ mod jdoc;
 mod kernel;
 mod model;
 mod props;
+mod refjson;
 mod rng;
 mod seams;
 
